@@ -505,7 +505,7 @@ func corrC09(r *Run) {
 			}
 		}
 	}
-	n := r.N(22, 800)
+	n := r.N(22, 500) // thorough: 500 (was 800) since the long texts and the pipeline were added; the tier must stay within 10 min
 	for _, p := range pools {
 		name := labelName(p.dc)
 		for i := 0; i < n; i++ {
@@ -552,7 +552,7 @@ func corrC09(r *Run) {
 				bucket = name + " text with a foreign-script rune"
 			}
 			emit(string(rs), bucket)
-			if i%11 == 10 || i%13 == 5 {
+			if i%11 == 10 || (r.Quick && i%13 == 5) {
 				cx.checkPipeline("best", coding.BestCoding, string(rs), "", uint16(r.Rng.Intn(65536)), true)
 			}
 		}
